@@ -41,8 +41,8 @@ CHUNK = 4
 
 def plan(tier):
     if tier == "quick":
-        return [("uart_tx", 40), ("uart_rx", 50), ("spi", 80), ("timer", 60), ("watchdog", 40), ("pwm", 20)]
-    return [("uart_tx", 1500), ("uart_rx", 2500), ("spi", 4000), ("timer", 3000), ("watchdog", 2000), ("pwm", 500)]
+        return [("uart_tx", 40), ("uart_rx", 50), ("spi", 80), ("timer", 60), ("watchdog", 40), ("pwm", 20), ("timeline", 60)]
+    return [("uart_tx", 1500), ("uart_rx", 2500), ("spi", 4000), ("timer", 3000), ("watchdog", 2000), ("pwm", 500), ("timeline", 2000)]
 
 
 def generate(family, rng, tier):
@@ -111,11 +111,15 @@ def generate(family, rng, tier):
             chg.append({"at": t, "period": per, "width": rng.choice([0, 1, per // 2, per, per + 1]), "enable": int(rng.random() < 0.85)})
             t += rng.choice([20, 40, 64])
         return {"family": family, "params": {}, "changes": chg, "ncyc": t + 40}
+    if family == "timeline":
+        last = rng.choice([1, 2, 3, 4, 5, 7, 8, 9, 15, 16, 17])
+        times = sorted(set([rng.choice([0, 1]), last] + [rng.randint(0, last) for _ in range(rng.randint(0, 3))]))
+        return {"family": family, "params": {"times": times}, "trigger_pattern": prng.pattern(rng, 150, rng.choice([0.05, 0.2, 0.5, 1.0]))}
     raise KeyError(family)
 
 
 def run(scn):
-    return {"uart_tx": run_uart_tx, "uart_rx": run_uart_rx, "spi": run_spi, "timer": run_timer, "watchdog": run_watchdog,
+    return {"timeline": run_timeline, "uart_tx": run_uart_tx, "uart_rx": run_uart_rx, "spi": run_spi, "timer": run_timer, "watchdog": run_watchdog,
             "pwm": run_pwm}[scn["family"]](scn)
 
 
@@ -638,6 +642,62 @@ def run_watchdog(scn):
         fired += exe
     return _result(viols, rows, {"cycles": len(rows), "checks": checks, "nontrivial": fired > 0 and len(scn["ops"]) >= 3,
                                  "faults": {"halt_pause": sum(1 for o in scn["ops"] if o["kind"] == "halt")}, "probes": {"execute_cycles": fired}})
+
+
+def run_timeline(scn):
+    from migen import Module, Signal
+    from litex.gen.genlib.misc import timeline
+    times = scn["params"]["times"]
+    pat = scn["trigger_pattern"]
+    m = Module()
+    trig = Signal()
+    outs = [Signal(name="o%d" % i) for i in range(len(times))]
+    m.sync += timeline(trig, [(t_, [o.eq(~o)]) for t_, o in zip(times, outs)])
+    rows = []
+
+    class Env(Agent):
+        reads = tuple([trig] + outs)
+
+        def __init__(s_):
+            s_.t = 0
+
+        def done(s_):
+            return s_.t >= len(pat) + max(times) + 4
+
+        def step(s_, v, t, w):
+            s_.t = t
+            rows.append(tuple(v[x] for x in Env.reads))
+            nxt = int(pat[t] == "1") if t < len(pat) else 0
+            if nxt != v[trig]:
+                w(trig, nxt)
+    bench = Bench(wrap_top(m), max_cycles=len(pat) + max(times) + 10, tail=2, fingerprint=False)
+    bench.add(Env())
+    bench.run()
+    viols = []
+    V = mkV(viols)
+    # reference: a sequence starts on a trigger while idle; event at time e toggles its output one cycle later; the sequencer
+    # is idle again (accepts a trigger) last+1 cycles after the start
+    last = max(times)
+    cnt = 0
+    exp = [0] * len(times)
+    starts = 0
+    checks = 0
+    for k, row in enumerate(rows):
+        tg = row[0]
+        checks += 1
+        if list(row[1:]) != exp:
+            V("timeline_events", "outputs", "cycle %d: outputs %s expected %s (event times %s, sequence position %d)" % (k, list(row[1:]), exp, times, cnt), k)
+            break
+        for i, e in enumerate(times):
+            if (e == 0 and tg and cnt == 0) or (e != 0 and cnt == e):
+                exp[i] ^= 1
+        if cnt != 0:
+            cnt = 0 if cnt == last else cnt + 1
+        elif tg:
+            cnt = 1 if last >= 1 else 0
+            starts += 1
+    return _result(viols, rows, {"cycles": len(rows), "checks": checks, "nontrivial": starts >= 2,
+                                 "faults": {"cmd_overlap": sum(1 for r in rows if r[0]) - starts}, "probes": {"sequences": starts}})
 
 
 def run_pwm(scn):
